@@ -94,7 +94,9 @@ Definition for_range (rho : env) (start stop step : expr) : option (list Z) :=
 
 Definition nonempty (o : option pulse) : bool := match o with Some (_ :: _) => true | _ => false end.
 
-(* the index ForLoopPT.final_values substitutes: start + Max((stop-start)//step - 1, 0)*step *)
+(* the index ForLoopPT.final_values substitutes: start + Max((stop - start - sign(step)) // step, 0) * step *)
+Definition last_index (a o s : Z) : Z := (a + Z.max ((o - a - Z.sgn s) / s) 0 * s)%Z.
+(* the index it substituted BEFORE the repair of finding for-final-floor: start + Max((stop-start)//step - 1, 0)*step *)
 Definition floor_final_index (a o s : Z) : Z := (a + Z.max ((o - a) / s - 1) 0 * s)%Z.
 
 (* finding `initial-head-empty-or-jump`, atom part: the voltage at time 0+ of a table channel (evaluated entries l,
@@ -182,8 +184,9 @@ Fixpoint guard_C07_final_tail (p : pt) (rho : env) {struct p} : bool :=
   | AAtom l _ r => guard_C07_final_tail l rho && guard_C07_final_tail r rho
   end.
 
-(* finding `for-final-floor`: for every loop on the structurally last path the index final_values substitutes
-   (floor form) is the index of the last iteration.  EXACT (C07_floor_guard_exact): it holds iff the step divides the
+(* (repaired) finding `for-final-floor`: the inputs on which the PRE-REPAIR final_values was right — for every loop on
+   the structurally last path the floor-form index is the index of the last iteration.  No longer a hypothesis of
+   C07_final_guarded; kept because it delimits exactly what the repair changed (and what a regression would break).  EXACT (C07_floor_guard_exact): it holds iff the step divides the
    span or the loop has a single iteration (e.g. range(0,1,2)). *)
 Fixpoint guard_C07_for_final_floor_path (p : pt) (rho : env) {struct p} : bool :=
   match p with
